@@ -13,9 +13,9 @@ CHECKS = {
   design="5/C03"),
  "C13": dict(
   engine="E-gen",
-  technique="property-based fuzzing (rapid grammar+mutation directive generator, full-type-grammar program generator) with a no-panic / no-hang / non-empty-diagnostic oracle; crash journaling and fresh-process confirmation",
+  technique="property-based fuzzing (rapid grammar+mutation directive generator, full-type-grammar program generator) with a no-panic / no-hang / diagnostic-names-the-declaration oracle; crash journaling and fresh-process confirmation; thorough tier adds a coverage-guided leg (go test -fuzz over rapid.MakeFuzz of the directive generator)",
   level="Generated-input search over directive texts at every directive position and over programs of the full Go type grammar; every case must end in output or a diagnostic, panics are caught by recover(), hangs by a generous guard, process deaths (stack overflow) by journaling the case and re-running it alone. Exploration: finds panics that exist in the sampled region, proves nothing beyond it.",
-  note="In-process evaluation through the verif hook config.ParseWithLoader for speed; the non-hook path (cli -> GenerateConverters) is exercised by the E-cli checks. The 'diagnostic names the offending declaration' clause is recorded as a label only.",
+  note="In-process evaluation through the verif hook config.ParseWithLoader for speed; the non-hook path (cli -> GenerateConverters) is exercised by the E-cli checks. A diagnostic must name the converter, its declaring file or the command line; diagnostics about user text that lands verbatim in the emitted file (name, output:raw, output:package, struct:comment, output:file) may show the emitted source instead. The native fuzz leg cannot be pinned to VERIF_SEED; its finds are confirmed through the replay file in a fresh process.",
   design="5/C13"),
  "C02": dict(
   engine="E-run",
